@@ -97,6 +97,10 @@ def substitution_effect(model, X, substitutions, args=None, func=predict,
 	X_var[substitutions[:, 0], :, substitutions[:, 1]] = 0
 	X_var[substitutions[:, 0], substitutions[:, 2], substitutions[:, 1]] = 1
 
+	if (X_var[substitutions[:, 0], :, substitutions[:, 1]].sum(dim=-1) > 1).any():
+		raise ValueError("Substitutions name different characters for the " +
+			"same position of the same example.")
+
 	y_before = func(model, X, args=args, **additional_func_kwargs, **kwargs)
 	y_after = func(model, X_var, args=args, **additional_func_kwargs, **kwargs)
 	return y_before, y_after
@@ -313,6 +317,9 @@ def insertion_effect(model, X, insertions, left=False, args=None, func=predict,
 
 	additional_func_kwargs = additional_func_kwargs or {}
 	X_var = []
+
+	if (insertions[:, 0] >= X.shape[0]).any():
+		raise ValueError("Insertions name an example that is not in X.")
 
 	for i in range(X.shape[0]):
 		insertions_ = insertions[insertions[:, 0] == i]
